@@ -131,6 +131,8 @@ def ob_handoff(h, shape):
     if stdin_tty is not None:
         is_tty = P.branch(binop('Eq', stdin_tty, Sc(1, 32, True)))
         h.inputs_struct['stdin_tty'] = is_tty
+        if isinstance(tty, dict) and 1 in tty:
+            h.inputs_struct['stdout_tty'] = bool(P.branch(binop('Eq', tty[1], Sc(1, 32, True))))
         h.require(own_group == (not is_tty), 'own-process-group-iff-stdin-is-not-a-terminal',
                   'stdin %s a terminal, child %s its own process group' % ('is' if is_tty else 'is not', 'gets' if own_group else 'does not get'))
     else:
@@ -198,11 +200,10 @@ def _replay_group_and_signals(v, native):
         ob = v['obligation']
         env = {'HOME': tmp, 'PATH': os.environ.get('PATH', ''), 'VREPLAY_INPUT': inf, 'VREC_WAIT': '4' if ob == 'terminating-signals-are-forwarded' else '0'}
         want_tty = bool(inp.get('stdin_tty')) and ob != 'terminating-signals-are-forwarded'
-        if want_tty:
-            master, slave = pty.openpty()
-            p = subprocess.Popen([exe, 'c06_handoff'], stdin=slave, stdout=subprocess.PIPE, stderr=subprocess.PIPE, env=env)
-        else:
-            p = subprocess.Popen([exe, 'c06_handoff'], stdin=subprocess.PIPE, stdout=subprocess.PIPE, stderr=subprocess.PIPE, env=env)
+        out_tty = bool(inp.get('stdout_tty')) and ob != 'terminating-signals-are-forwarded'
+        master, slave = pty.openpty()
+        p = subprocess.Popen([exe, 'c06_handoff'], stdin=slave if want_tty else subprocess.PIPE,
+                             stdout=slave if out_tty else subprocess.PIPE, stderr=subprocess.PIPE, env=env)
         sent = None
         if ob == 'terminating-signals-are-forwarded':
             t0 = time.time()
